@@ -2,7 +2,7 @@
 import os
 
 import edges
-import replay
+import replay as rp
 from vlib import HARNESS, Inconclusive, go_build, phase, run_tlc, tlc_must_pass, workdir
 
 CFG = """SPECIFICATION Spec
@@ -70,9 +70,9 @@ def run(chk, tier):
         chk.add("transitions", st["transitions"])
         ad = ",".join(os.path.join(HARNESS, "adaptors", f) for f in ("omap_%s.js" % inst, "omap.js"))
         with phase(chk, "replay-%s%d" % (inst, n)):
-            reps, crashes = replay.run_walkers(binp, gpath, gwd, ["-adaptor", ad], walks=400 if thorough else 30,
+            reps, crashes = rp.run_walkers(binp, gpath, gwd, ["-adaptor", ad], walks=400 if thorough else 30,
                                                walklen=80, timeout=1500)
-        tot, nodes = replay.fold(chk, reps, crashes, "OMap/%s" % inst, {}, {"module": "OMap", "instance": inst,
+        tot, nodes = rp.fold(chk, reps, crashes, "OMap/%s" % inst, {}, {"module": "OMap", "instance": inst,
                                                                             "keys": keys, "adaptor": ad})
         chk.add("edges_total", tot["edges"])
         chk.add("edges_replayed", tot["covered"])
